@@ -319,7 +319,7 @@ func blockOnListChangeWorker(
 	}
 
 	ws := blockFn()
-	defer ctx.dsc.ds.leaveListBlock(ws)
+	defer func() { ctx.dsc.ds.leaveListBlock(ws) }()
 
 	// with notification registered, try operation again immediately
 	output = op()
@@ -364,7 +364,16 @@ func blockOnListChangeWorker(
 		if output.data != nil {
 			return
 		}
-		// a different client obtained the list element before this client could, so try again
+
+		// a different client obtained the list element before this client could;
+		// the wake-up took this client out of the wait queues, so queue up again
+		// and look once more before waiting (a push may have come in between)
+		ctx.dsc.ds.leaveListBlock(ws)
+		ws = blockFn()
+		output = op()
+		if output.data != nil {
+			return
+		}
 	}
 }
 
